@@ -513,9 +513,45 @@ def providers_case():
                      "matrix, the latter to the IERS frame bias (dalpha0, xi0, eta0) to first order within 1e-11 rad (2 micro-arcseconds; the published xi0 is given to 0.1 uas and the matrix in the code differs from it by 0.14 uas)")
 
 
+def fresh_eop_case():
+    """the same calendar date asked twice with different Earth-orientation parameters (a database reload, or the zero-EOP vs
+    real-EOP configurations of one process): the second conversion uses the second date's own parameters -- no result of
+    Orientation.convert_to may be remembered under a key that ignores date.eop (two date objects that print identically)"""
+    ins = [("x1", "angle", {"lo": "free"}), ("y1", "angle", {"lo": "free"}), ("x2", "angle", {"lo": "free"}), ("y2", "angle", {"lo": "free"})]
+
+    class SameStr:
+        def __init__(self, eop):
+            self.eop = types.SimpleNamespace(**eop)
+
+        def __repr__(self):
+            return "2020-01-01T00:00:00 UTC"
+        __str__ = __repr__
+
+    def run(env, v):
+        ori = _mod(env, "beyond.frames.orient")
+        if env.symbolic:
+            iau = env.mod("beyond.frames.iau1980")
+            ori.iau1980 = iau
+            env.mod("beyond.utils.matrix")
+        k = 180 * 3600 / env.pi                     # radians -> arcseconds, the unit of eop.x / eop.y
+        d1 = SameStr({"x": v["x1"] * k, "y": v["y1"] * k})
+        d2 = SameStr({"x": v["x2"] * k, "y": v["y2"] * k})
+        ori.ITRF.convert_to(d1, ori.PEF)
+        M = ori.ITRF.convert_to(d2, ori.PEF)
+        return {"second_call_uses_its_own_eop": [[M[i][j] for j in range(3)] for i in range(3)]}
+
+    def ref(env, v, out):
+        c, s = env.cos, env.sin
+        x, y = v["x2"], v["y2"]
+        return {"second_call_uses_its_own_eop": [[c(x), 0, -s(x)], [s(y) * s(x), c(y), s(y) * c(x)], [c(y) * s(x), -s(y), c(y) * c(x)]]}
+    return Case("models/fresh_eop", ins, run, ref, timeout=60, tol=1e-9, abs_tol=1e-12,
+                desc="ITRF -> PEF asked twice for dates that print identically but carry different pole coordinates: the second "
+                     "matrix is R1(yp2) R2(xp2)")
+
+
 def cases(tier):
     cs = [poly80_case(), nutation_series_case(1), nutation_series_case(2), equinox_case(), gast_case(), matrices80_case(),
-          poly2010_case(), series2010_case(), xys_case(), matrices2010_case(), providers_case()]
+          poly2010_case(), series2010_case(), xys_case(), matrices2010_case(), providers_case(), fresh_eop_case()]
     if tier != "quick":
         cs.append(nutation_series_case(3))
     return cs
